@@ -1,53 +1,81 @@
 (* C11 -- property theorems only.  Statements are about Model/Constraints.v:
-   validate_constraints (decision logic), proximal_operator (dispatch), admm and constrained_parafac
-   (loop skeletons).  P = Python parameter values with truthiness `truthy`, M = factor matrices,
-   op k p = the operator of constraint k with parameter p; least-squares steps and all stopping
-   decisions are arbitrary functions (env), budgets are arbitrary naturals. *)
-From Coq Require Import List Arith Bool.
-From TLV Require Import Base.PyList Base.Tensor Model.Constraints Proofs.ConstraintsProofs Proofs.ConstraintsProofsLoop.
+   validate_constraints (decision logic; dict keys are Python ints: z* definitions), proximal_operator (dispatch),
+   admm and constrained_parafac (loop skeletons).  P = Python parameter values with truthiness `truthy`,
+   M = factor matrices, op k p = the operator of constraint k with parameter p; least-squares steps and all stopping
+   decisions are arbitrary functions (env), budgets are arbitrary naturals.
+   `_partial`: holds under the named hypothesis `nonneg_spec` (every dict key is >= 0); `_refuted`: the statement
+   without that hypothesis fails on the model (= on the code: a negative key aliases a mode, the scan compares raw keys).
+   NOT proved here (kept visible): "the operator of kind k maps into the constraint set of k" - that is C12's subject;
+   it enters C11_returned_factor_feasible_partial as the hypothesis `forall k p v, feas k p (op k p v)`. *)
+From Coq Require Import List Arith Bool ZArith.
+From TLV Require Import Base.PyList Base.Tensor.
+From TLV Require Import Model.Constraints Proofs.ConstraintsProofs Proofs.ConstraintsProofsLoop Proofs.ConstraintsProofsKeys.
 Import ListNotations.
 
 (* (i) decision logic at the real call site (the twelve keywords): table entry m = what the user requested on m *)
-Theorem C11_table_iff_requested : forall (P : Type) (truthy : P -> bool) (n : nat) (f : kind -> @spec P) (tab : @table P),
-  (forall k, wf_spec (f k)) -> validate_table truthy n (keywords f) = Ok tab ->
+Theorem C11_table_iff_requested_partial : forall (P : Type) (truthy : P -> bool) (n : nat) (f : kind -> @zspec P) (tab : @table P),
+  (forall k, zwf_spec (f k)) -> (forall k, nonneg_spec (f k)) ->
+  zvalidate_table truthy n (zkeywords f) = Ok tab ->
   length tab = n /\
-  (forall m k p, nth m tab None = Some (k, p) <-> requested truthy n (f k) m p) /\
-  (forall m, nth m tab None = None <-> forall k p, ~ requested truthy n (f k) m p).
-Proof. exact @keywords_table. Qed.
-Print Assumptions C11_table_iff_requested.
+  (forall m k p, nth m tab None = Some (k, p) <-> zrequested truthy n (f k) m p) /\
+  (forall m, nth m tab None = None <-> forall k p, ~ zrequested truthy n (f k) m p).
+Proof. exact @zkeywords_table. Qed.
+Print Assumptions C11_table_iff_requested_partial.
 
 (* ... and an error iff two keywords address one mode (or a keyword addresses a mode that does not exist) *)
-Theorem C11_reject_iff_double : forall (P : Type) (truthy : P -> bool) (n : nat) (f : kind -> @spec P),
-  (forall k, wf_spec (f k)) ->
-  (validate_table truthy n (keywords f) = Err <->
-   (exists k1 k2 m p1 p2, k1 <> k2 /\ requested truthy n (f k1) m p1 /\ requested truthy n (f k2) m p2) \/
-   (exists k m p, requested truthy n (f k) m p /\ n <= m)).
-Proof. exact @keywords_err_iff. Qed.
-Print Assumptions C11_reject_iff_double.
+Theorem C11_reject_iff_double_partial : forall (P : Type) (truthy : P -> bool) (n : nat) (f : kind -> @zspec P),
+  (forall k, zwf_spec (f k)) -> (forall k, nonneg_spec (f k)) ->
+  (zvalidate_table truthy n (zkeywords f) = Err <->
+   (exists k1 k2 m p1 p2, k1 <> k2 /\ zrequested truthy n (f k1) m p1 /\ zrequested truthy n (f k2) m p2) \/
+   (exists k m p, zrequested truthy n (f k) m p /\ n <= m)).
+Proof. exact @zkeywords_err_iff. Qed.
+Print Assumptions C11_reject_iff_double_partial.
+
+(* without the hypothesis on the keys both fail: non_negative={2: ..}, l1_reg={-1: ..} on order 3 is accepted and the
+   non_negative request is lost *)
+Theorem C11_table_iff_requested_refuted : exists (n : nat) (f : kind -> @zspec nat) (tab : @table nat) (m : nat) (k : kind) (p : nat),
+  (forall k, zwf_spec (f k)) /\ zvalidate_table alias_truthy n (zkeywords f) = Ok tab /\
+  zrequested alias_truthy n (f k) m p /\ nth m tab None <> Some (k, p).
+Proof. exact table_iff_requested_refuted. Qed.
+Print Assumptions C11_table_iff_requested_refuted.
+
+Theorem C11_reject_iff_double_refuted : exists (n : nat) (f : kind -> @zspec nat),
+  (forall k, zwf_spec (f k)) /\
+  (exists k1 k2 m p1 p2, k1 <> k2 /\ zrequested alias_truthy n (f k1) m p1 /\ zrequested alias_truthy n (f k2) m p2) /\
+  zvalidate_table alias_truthy n (zkeywords f) <> Err.
+Proof. exact reject_iff_double_refuted. Qed.
+Print Assumptions C11_reject_iff_double_refuted.
 
 (* the same two statements for any list of (name, value) pairs with distinct names *)
-Theorem C11_table_general : forall (P : Type) (truthy : P -> bool) (n : nat) (sp : list (kind * @spec P)) (tab : @table P),
-  wf_specs sp -> validate_table truthy n sp = Ok tab ->
+Theorem C11_table_general_partial : forall (P : Type) (truthy : P -> bool) (n : nat) (sp : list (kind * @zspec P)) (tab : @table P),
+  zwf_specs sp -> nonneg_specs sp -> zvalidate_table truthy n sp = Ok tab ->
   length tab = n /\
-  (forall m k p, nth m tab None = Some (k, p) <-> exists s, In (k, s) sp /\ requested truthy n s m p) /\
-  (forall m, nth m tab None = None <-> forall k s p, In (k, s) sp -> ~ requested truthy n s m p).
-Proof. exact @validate_table_ok. Qed.
-Print Assumptions C11_table_general.
+  (forall m k p, nth m tab None = Some (k, p) <-> exists s, In (k, s) sp /\ zrequested truthy n s m p) /\
+  (forall m, nth m tab None = None <-> forall k s p, In (k, s) sp -> ~ zrequested truthy n s m p).
+Proof. exact @zvalidate_table_ok. Qed.
+Print Assumptions C11_table_general_partial.
 
-Theorem C11_reject_general : forall (P : Type) (truthy : P -> bool) (n : nat) (sp : list (kind * @spec P)),
-  wf_specs sp -> (validate_table truthy n sp = Err <-> double truthy n sp \/ out_of_range truthy n sp).
-Proof. exact @validate_table_err_iff. Qed.
-Print Assumptions C11_reject_general.
+Theorem C11_reject_general_partial : forall (P : Type) (truthy : P -> bool) (n : nat) (sp : list (kind * @zspec P)),
+  zwf_specs sp -> nonneg_specs sp ->
+  (zvalidate_table truthy n sp = Err <-> zdouble truthy n sp \/ zout_of_range truthy n sp).
+Proof. exact @zvalidate_table_err_iff. Qed.
+Print Assumptions C11_reject_general_partial.
 
 (* what validate_constraints(..., order) returns *)
-Theorem C11_validate_order : forall (P : Type) (truthy : P -> bool) (n : nat) (sp : list (kind * @spec P)) (order : nat)
+Theorem C11_validate_order_partial : forall (P : Type) (truthy : P -> bool) (n : nat) (sp : list (kind * @zspec P)) (order : nat)
   (c : option (kind * P)),
-  wf_specs sp -> validate truthy n sp order = Ok c ->
+  zwf_specs sp -> nonneg_specs sp -> zvalidate truthy n sp order = Ok c ->
   order < n /\
-  (forall k p, c = Some (k, p) <-> exists s, In (k, s) sp /\ requested truthy n s order p) /\
-  (c = None <-> forall k s p, In (k, s) sp -> ~ requested truthy n s order p).
-Proof. exact @validate_spec. Qed.
-Print Assumptions C11_validate_order.
+  (forall k p, c = Some (k, p) <-> exists s, In (k, s) sp /\ zrequested truthy n s order p) /\
+  (c = None <-> forall k s p, In (k, s) sp -> ~ zrequested truthy n s order p).
+Proof. exact @zvalidate_spec. Qed.
+Print Assumptions C11_validate_order_partial.
+
+(* for non-negative keys the int-keyed definitions coincide with the natural-number-keyed ones *)
+Theorem C11_int_keys_coincide_with_mode_keys : forall (P : Type) (truthy : P -> bool) (n : nat) (sp : list (kind * @zspec P)),
+  nonneg_specs sp -> zvalidate_table truthy n sp = validate_table truthy n (nat_specs sp).
+Proof. exact @zvalidate_table_nat. Qed.
+Print Assumptions C11_int_keys_coincide_with_mode_keys.
 
 (* (ii) admm returns the primal variable produced by the operator, for every budget and every residual test *)
 Theorem C11_admm_returns_operator_output : forall (M : Type) (msub madd : M -> M -> M) (R : M -> Prop) (n_iter : nat)
@@ -57,15 +85,15 @@ Theorem C11_admm_returns_operator_output : forall (M : Type) (msub madd : M -> M
 Proof. exact @admm_range. Qed.
 Print Assumptions C11_admm_returns_operator_output.
 
-(* (ii) skeleton of constrained_parafac: every outer/inner budget, every environment, every initialisation *)
-Theorem C11_skeleton : forall (P : Type) (truthy : P -> bool) (M : Type) (dM : M) (op : kind -> P -> M -> M)
-  (msub madd : M -> M -> M) (n : nat) (sp : list (kind * @spec P)) (E : env (M := M)) (i0 : init (M := M))
+(* (ii) skeleton of constrained_parafac: every validation function, outer/inner budget, environment, initialisation *)
+Theorem C11_skeleton : forall (P M : Type) (dM : M) (op : kind -> P -> M -> M) (msub madd : M -> M -> M)
+  (val : nat -> res (option (kind * P))) (E : env (M := M)) (n : nat) (i0 : init (M := M))
   (fixed : list nat) (n_outer n_inner : nat) (zero : M) (fs : list M),
-  constrained_cp truthy dM op msub madd E n sp i0 fixed n_outer n_inner zero = Ok fs ->
+  constrained_cp dM op val msub madd E n i0 fixed n_outer n_inner zero = Ok fs ->
   length fs = length (init_factors i0) /\
   (forall m, m < length fs ->
      init_computed i0 = true \/ (In m (modes_list n fixed) /\ 0 < n_outer) ->
-     in_range truthy op n sp m (nth m fs dM)) /\
+     in_range op val m (nth m fs dM)) /\
   (forall m, init_computed i0 = false -> ~ In m (modes_list n fixed) \/ n_outer = 0 ->
      nth m fs dM = nth m (init_factors i0) dM).
 Proof. exact @cp_skeleton. Qed.
@@ -73,34 +101,60 @@ Print Assumptions C11_skeleton.
 
 (* (i)+(ii): the factor returned for a mode on which the user requested constraint k with parameter p
    is an output of the operator of k with p *)
-Theorem C11_returned_factor_is_operator_output : forall (P : Type) (truthy : P -> bool) (M : Type) (dM : M)
-  (op : kind -> P -> M -> M) (msub madd : M -> M -> M) (n : nat) (sp : list (kind * @spec P)) (E : env (M := M))
+Theorem C11_returned_factor_is_operator_output_partial : forall (P : Type) (truthy : P -> bool) (M : Type) (dM : M)
+  (op : kind -> P -> M -> M) (msub madd : M -> M -> M) (n : nat) (sp : list (kind * @zspec P)) (E : env (M := M))
   (i0 : init (M := M)) (fixed : list nat) (n_outer n_inner : nat) (zero : M) (fs : list M) (m : nat) (k : kind)
-  (s : @spec P) (p : P),
-  wf_specs sp ->
-  constrained_cp truthy dM op msub madd E n sp i0 fixed n_outer n_inner zero = Ok fs ->
+  (s : @zspec P) (p : P),
+  zwf_specs sp -> nonneg_specs sp ->
+  constrained_cp dM op (zvalidate truthy n sp) msub madd E n i0 fixed n_outer n_inner zero = Ok fs ->
   m < length fs -> init_computed i0 = true \/ (In m (modes_list n fixed) /\ 0 < n_outer) ->
-  In (k, s) sp -> requested truthy n s m p ->
+  In (k, s) sp -> zrequested truthy n s m p ->
   exists v, nth m fs dM = op k p v.
-Proof. exact @cp_requested_in_range. Qed.
-Print Assumptions C11_returned_factor_is_operator_output.
+Proof. exact @zcp_requested_in_range. Qed.
+Print Assumptions C11_returned_factor_is_operator_output_partial.
+
+(* with a negative key: accepted although two keywords address the last mode, and the factor returned for the mode on
+   which non_negative was requested is an l1_reg output, not a non_negative output (factors are provenance tags) *)
+Theorem C11_returned_factor_is_operator_output_refuted : exists (n : nat) (f : kind -> @zspec nat) (fs : list (nat * nat)) (m : nat) (p : nat),
+  (forall k, zwf_spec (f k)) /\
+  constrained_cp (0, 0) alias_op (zvalidate alias_truthy n (zkeywords f)) (fun _ _ => (0, 0)) (fun _ _ => (0, 0)) alias_env
+                 n (IComputed [(0, 0); (0, 0); (0, 0)]) [] 2 1 (0, 0) = Ok fs /\
+  zdouble alias_truthy n (zkeywords f) /\
+  zrequested alias_truthy n (f KNonNeg) m p /\ (forall v, nth m fs (0, 0) <> alias_op KNonNeg p v).
+Proof. exact cp_alias_refuted. Qed.
+Print Assumptions C11_returned_factor_is_operator_output_refuted.
+
+(* ... hence feasible, GIVEN that every operator maps into its constraint set (hypothesis; C12's subject) *)
+Theorem C11_returned_factor_feasible_partial : forall (P : Type) (truthy : P -> bool) (M : Type) (dM : M)
+  (op : kind -> P -> M -> M) (msub madd : M -> M -> M) (feas : kind -> P -> M -> Prop) (n : nat) (sp : list (kind * @zspec P))
+  (E : env (M := M)) (i0 : init (M := M)) (fixed : list nat) (n_outer n_inner : nat) (zero : M) (fs : list M) (m : nat)
+  (k : kind) (s : @zspec P) (p : P),
+  (forall k p v, feas k p (op k p v)) ->
+  zwf_specs sp -> nonneg_specs sp ->
+  constrained_cp dM op (zvalidate truthy n sp) msub madd E n i0 fixed n_outer n_inner zero = Ok fs ->
+  m < length fs -> init_computed i0 = true \/ (In m (modes_list n fixed) /\ 0 < n_outer) ->
+  In (k, s) sp -> zrequested truthy n s m p ->
+  feas k p (nth m fs dM).
+Proof. exact @zcp_feasible. Qed.
+Print Assumptions C11_returned_factor_feasible_partial.
 
 (* requests with two constraints on one mode are rejected by the decomposition, whatever the rest *)
-Theorem C11_decomposition_rejects_double : forall (P : Type) (truthy : P -> bool) (M : Type) (dM : M)
-  (op : kind -> P -> M -> M) (msub madd : M -> M -> M) (n : nat) (sp : list (kind * @spec P)) (E : env (M := M))
+Theorem C11_decomposition_rejects_double_partial : forall (P : Type) (truthy : P -> bool) (M : Type) (dM : M)
+  (op : kind -> P -> M -> M) (msub madd : M -> M -> M) (n : nat) (sp : list (kind * @zspec P)) (E : env (M := M))
   (i0 : init (M := M)) (fixed : list nat) (n_outer n_inner : nat) (zero : M),
-  wf_specs sp -> double truthy n sp \/ out_of_range truthy n sp ->
-  constrained_cp truthy dM op msub madd E n sp i0 fixed n_outer n_inner zero = Err.
-Proof. exact @cp_rejects. Qed.
-Print Assumptions C11_decomposition_rejects_double.
+  zwf_specs sp -> nonneg_specs sp -> zdouble truthy n sp \/ zout_of_range truthy n sp ->
+  constrained_cp dM op (zvalidate truthy n sp) msub madd E n i0 fixed n_outer n_inner zero = Err.
+Proof. exact @zcp_rejects. Qed.
+Print Assumptions C11_decomposition_rejects_double_partial.
 
-Theorem C11_success_implies_no_double : forall (P : Type) (truthy : P -> bool) (M : Type) (dM : M)
-  (op : kind -> P -> M -> M) (msub madd : M -> M -> M) (n : nat) (sp : list (kind * @spec P)) (E : env (M := M))
+Theorem C11_success_implies_no_double_partial : forall (P : Type) (truthy : P -> bool) (M : Type) (dM : M)
+  (op : kind -> P -> M -> M) (msub madd : M -> M -> M) (n : nat) (sp : list (kind * @zspec P)) (E : env (M := M))
   (i0 : init (M := M)) (fixed : list nat) (n_outer n_inner : nat) (zero : M) (fs : list M),
-  wf_specs sp -> constrained_cp truthy dM op msub madd E n sp i0 fixed n_outer n_inner zero = Ok fs ->
-  ~ double truthy n sp /\ ~ out_of_range truthy n sp.
-Proof. exact @cp_ok_no_double. Qed.
-Print Assumptions C11_success_implies_no_double.
+  zwf_specs sp -> nonneg_specs sp ->
+  constrained_cp dM op (zvalidate truthy n sp) msub madd E n i0 fixed n_outer n_inner zero = Ok fs ->
+  ~ zdouble truthy n sp /\ ~ zout_of_range truthy n sp.
+Proof. exact @zcp_ok_no_double. Qed.
+Print Assumptions C11_success_implies_no_double_partial.
 
 (* modes that are updated: every mode not listed as fixed (the last one is never fixed) *)
 Theorem C11_free_modes_updated : forall (n : nat) (fixed : list nat) (m : nat),
@@ -118,29 +172,31 @@ Print Assumptions C11_fixed_modes_kept.
 Example C11_nonvacuous_table :
   let truthy := fun p : nat => negb (Nat.eqb p 0) in
   let f := fun k => match k with
-                    | KNonNeg => SList [Some 1; None; Some 0]
-                    | KL1 => SDict [(2, 7)]
-                    | _ => SNone end in
-  (forall k, wf_spec (f k)) /\
-  validate_table truthy 3 (keywords f) = Ok [Some (KNonNeg, 1); None; Some (KL1, 7)] /\
-  requested truthy 3 (f KL1) 2 7.
+                    | KNonNeg => ZList [Some 1; None; Some 0]
+                    | KL1 => ZDict [(2%Z, 7)]
+                    | _ => ZNone end in
+  (forall k, zwf_spec (f k)) /\ (forall k, nonneg_spec (f k)) /\
+  zvalidate_table truthy 3 (zkeywords f) = Ok [Some (KNonNeg, 1); None; Some (KL1, 7)] /\
+  zrequested truthy 3 (f KL1) 2 7.
 Proof.
-  cbv zeta. split; [|split].
+  cbv zeta. split; [|split; [|split]].
   - intros k; destruct k; simpl; auto. repeat constructor. simpl; tauto.
+  - intros k; destruct k; simpl; auto. repeat constructor. simpl. discriminate.
   - vm_compute. reflexivity.
-  - simpl. auto.
+  - simpl. exists 2%Z. split; [left; reflexivity | left; reflexivity].
 Qed.
 
 Example C11_nonvacuous_reject :
   let truthy := fun p : nat => negb (Nat.eqb p 0) in
   let f := fun k => match k with
-                    | KNonNeg => SList [Some 1; None; Some 0]
-                    | KSimplex => SScalar 3
-                    | _ => SNone end in
-  (forall k, wf_spec (f k)) /\ validate_table truthy 3 (keywords f) = Err /\
-  KNonNeg <> KSimplex /\ requested truthy 3 (f KNonNeg) 0 1 /\ requested truthy 3 (f KSimplex) 0 3.
+                    | KNonNeg => ZList [Some 1; None; Some 0]
+                    | KSimplex => ZScalar 3
+                    | _ => ZNone end in
+  (forall k, zwf_spec (f k)) /\ (forall k, nonneg_spec (f k)) /\ zvalidate_table truthy 3 (zkeywords f) = Err /\
+  KNonNeg <> KSimplex /\ zrequested truthy 3 (f KNonNeg) 0 1 /\ zrequested truthy 3 (f KSimplex) 0 3.
 Proof.
-  cbv zeta. split; [|split; [|split; [|split]]].
+  cbv zeta. split; [|split; [|split; [|split; [|split]]]].
+  - intros k; destruct k; simpl; auto.
   - intros k; destruct k; simpl; auto.
   - vm_compute. reflexivity.
   - discriminate.
@@ -148,11 +204,19 @@ Proof.
   - simpl. repeat split; auto with arith.
 Qed.
 
+(* a negative key on its own works as Python indexing does: {-1: 7} on order 3 constrains mode 2 *)
+Example C11_negative_key_alone :
+  let truthy := fun p : nat => negb (Nat.eqb p 0) in
+  zvalidate_table truthy 3 (zkeywords (fun k => match k with KL1 => ZDict [((-1)%Z, 7)] | _ => ZNone end))
+  = Ok [None; None; Some (KL1, 7)] /\
+  zvalidate_table truthy 3 (zkeywords (fun k => match k with KL1 => ZDict [((-4)%Z, 7)] | _ => ZNone end)) = Err.
+Proof. split; vm_compute; reflexivity. Qed.
+
 (* non-vacuity of the skeleton: the model runs (tags as factors) and succeeds with budgets (2, 1) *)
 Example C11_nonvacuous_skeleton :
   let truthy := fun p : nat => negb (Nat.eqb p 0) in
-  let sp := keywords (fun k => match k with KNonNeg => SDict [(1, 1)] | _ => SNone end) in
+  let sp := zkeywords (fun k => match k with KNonNeg => ZDict [(1%Z, 1)] | _ => ZNone end) in
   let E := mkEnv (fun _ _ _ _ => 0) (fun _ _ _ _ _ _ => false) (fun _ _ _ => false) in
-  constrained_cp truthy 0 (fun _ p _ => 100 + p) (fun _ _ => 0) (fun _ _ => 0) E 3 sp (IUser [7; 8; 9]) [0] 2 1 0
+  constrained_cp 0 (fun _ p _ => 100 + p) (zvalidate truthy 3 sp) (fun _ _ => 0) (fun _ _ => 0) E 3 (IUser [7; 8; 9]) [0] 2 1 0
   = Ok [7; 101; 0].
 Proof. vm_compute. reflexivity. Qed.
